@@ -86,7 +86,7 @@ class C02(C01):
                     val = dfrom(int(lanes[j], 16))
                     ok, eb = tolerance_ok(val, exact, absum, [o + 1 for o in t.orders], p[0], ufl)
                     if not ok:
-                        sig = "C01:x==knots[naxes]&&knots[naxes-1]==knots[naxes]" if reg == "upper-end-repeated" else "C02:gradient@%s" % reg
+                        sig = "C01:x==knots[order]==knots[naxes]" if reg == "upper-end-repeated" else "C02:gradient@%s" % reg
                         fails.append((sig, "%s lane %d = %r but exact is %.17g (|err|,bound=%s)" % (k, j, val, float(exact), eb)))
         return fails
 
